@@ -286,6 +286,14 @@ func (vc *FuncVC) execute() {
 		vc.declare(t.S, "Int")
 		vc.regs[fv] = t
 		vc.emit("(assert (> %s 0))", t.S)
+		// the captured variable's value at entry has the invariants of its Go type (slice lengths are not negative)
+		if pt, ok := fv.Type().Underlying().(*types.Pointer); ok {
+			if _, isSl := pt.Elem().Underlying().(*types.Slice); isSl {
+				h := vc.get(s, "C:Slice", "(Array Int Slice)")
+				v := app("Slice", "select", h, t)
+				vc.typeFacts(tTrue, v, pt.Elem())
+			}
+		}
 	}
 	// names the contract was written with (a "params" line) are bound positionally too, so that a
 	// parameter rename in the source does not invalidate the contract
@@ -639,6 +647,14 @@ func (vc *FuncVC) loopHead(li *loopInfo, s *State) {
 					continue // allocated inside the loop: fresh each iteration
 				}
 				nv := vc.freshConst(fmt.Sprintf("h%d_cell", li.ord), vs)
+				if vs == "Slice" {
+					// whatever the loop stored there is a well-formed slice whose array has been allocated
+					al := vc.get(s, "alloc", "(Array Int Bool)")
+					vc.assume(s.pc, T("Bool", fmt.Sprintf("(and (>= (s!len %s) 0) (>= (s!off %s) 0) (>= (s!cap %s) (s!len %s)) (=> (= (s!arr %s) 0) (= (s!cap %s) 0)))", nv.S, nv.S, nv.S, nv.S, nv.S, nv.S)))
+					if vc.useQuantSlices {
+						vc.assume(s.pc, T("Bool", fmt.Sprintf("(or (= (s!arr %s) 0) (select %s (s!arr %s)))", nv.S, al.S, nv.S)))
+					}
+				}
 				cur = app(srt, "store", cur, ref, nv)
 			}
 			s.vars[k] = vc.nameTerm(cur, k)
